@@ -276,51 +276,51 @@ let schedules (r : e2e_rec) (max : int) (cs : cert list) (assign : nat list) (k 
 
 let e2e13_record (tok : string) : string =
   let r = parse_record tok in
+  let nodes = nodes_of r in
+  let specn = Option.map (fun (m, _) -> nat_of_int m) r.spec in
+  (* the property predicates, evaluated directly on the observation (no search involved):
+     C13_e2e_prop_overlap / C06_e2e_prop_frames_any hold of every accepted observation *)
+  let direct_viol (o : ores option) : string option =
+    if not (prop_overlap r.idem specn r.frs) then Some "frames-in-flight"
+    else if not (prop_frames r.pol r.idem specn (nat_of_int r.nn) r.frs) then Some "frames-violate-property"
+    else match o, gate r with
+      | Some o, Some _ when not (prop_first_real r.mg o r.co r.frs) -> Some "not-the-first-real-answer"
+      | Some o, Some max when not (prop_last_error (nat_of_int max) (nat_of_int r.nn) r.down r.tr o r.frs) ->
+        Some "last-error-returned-too-early"
+      | _ -> None in
   match ores_of r with
-  | None -> "diff e2e unexpected-result " ^ rec_summary r
+  | None ->
+    (* "it always returns": the call did not come back within the runner's 40 s although every frame
+       had been answered and no scheduling stall was measured *)
+    if r.res = "hang" && List.for_all (fun f -> f.f_ans <> AnsNone) r.frs && int_of_n r.mg < 1_000_000
+    then "viol e2e no-return " ^ rec_summary r
+    else (match direct_viol None with
+        | Some c -> "viol e2e " ^ c ^ " " ^ rec_summary r
+        | None -> "diff e2e unexpected-result " ^ rec_summary r)
   | Some o ->
-    let nodes = nodes_of r in
-    let specn = Option.map (fun (m, _) -> nat_of_int m) r.spec in
     let spec13 = Option.map (fun (m, iv) -> (nat_of_int m, n_of_int (iv * 1000))) r.spec in
     let chk cs assign ls = e2e_check13 r.pol r.idem spec13 r.cl0 nodes r.down cs assign r.frs ls r.t0 r.tr r.mg o r.co in
     let ok = match gate r with
       | None -> List.exists (fun c -> chk [c] [] []) (single_certs r)
       | Some max -> List.exists (fun (cs, assign) -> schedules r max cs assign (chk cs assign)) (multi_certs r max) in
     if ok then "ok"               (* C13_e2e_gate / C13_e2e_schedule *)
-    else if not (prop_overlap r.idem specn r.frs) then "viol e2e frames-in-flight " ^ rec_summary r
-    else match gate r with
+    else match direct_viol (Some o) with
+      | Some c -> "viol e2e " ^ c ^ " " ^ rec_summary r
       | None ->
-        if not (prop_frames r.pol r.idem specn (nat_of_int r.nn) r.frs)
-        then "viol e2e frames-violate-property " ^ rec_summary r
-        else
-          (* not idempotent, but the frames are runs of the execution loop once split into SEVERAL
-             fibers as the profile's speculative policy would start them: speculative execution of a
-             request that is not idempotent (even though no two frames overlapped) *)
-          (match r.spec with
-           | Some (max, _) when not r.idem
-                                && List.exists (fun (cs, assign) ->
-                                    List.length cs > 1
-                                    && check_multi r.pol r.idem r.cl0 nodes r.down (nat_of_int max) cs assign r.frs r.tr o r.co)
-                                  (multi_certs r max) ->
-             "viol e2e speculative-fibers-for-a-request-that-is-not-idempotent " ^ rec_summary r
-           | _ -> "diff e2e no-certificate " ^ rec_summary r)
-      | Some max ->
-        (* the fibers are runs of the execution loop, the caller got the result of one of them, every
-           speculative fiber started after its interval -- but no schedule of `execute` returns that
-           result in an order compatible with the answer instants: "first real answer wins" fails *)
-        let structure = List.exists (fun (cs, assign) ->
-            e2e_check r.pol r.idem specn r.cl0 nodes r.down cs assign r.frs r.tr o r.co
-            && starts_ok (mk_env r.pol r.idem r.cl0 nodes r.down
+        (* no certificate was accepted by the (bounded, untrusted) search and no property predicate
+           fails on the observation: broken correspondence; the tag only helps the reader *)
+        (match gate r with
+         | None -> "diff e2e no-certificate " ^ rec_summary r
+         | Some max ->
+           let fibers_ok = List.filter (fun (cs, assign) ->
+               e2e_check r.pol r.idem specn r.cl0 nodes r.down cs assign r.frs r.tr o r.co) (multi_certs r max) in
+           if fibers_ok = [] then "diff e2e no-certificate " ^ rec_summary r
+           else if not (List.exists (fun (cs, assign) ->
+               starts_ok (mk_env r.pol r.idem r.cl0 nodes r.down
                             (n_of_int (match r.spec with Some (_, iv) -> iv * 1000 | None -> 0))
-                            cs assign r.frs r.t0 r.tr r.mg r.co)) (multi_certs r max) in
-        if structure then "viol e2e no-schedule-returns-this-result " ^ rec_summary r
-        else
-          (* the frames are runs of the execution loop only when split into MORE than 1 + max fibers *)
-          let wide = Some (nat_of_int 8) in
-          let more = List.exists (fun (cs, assign) ->
-              e2e_check r.pol r.idem wide r.cl0 nodes r.down cs assign r.frs r.tr o r.co) (multi_certs r 8) in
-          if more then "viol e2e more-than-1+max-executions " ^ rec_summary r
-          else "diff e2e no-certificate " ^ rec_summary r
+                            cs assign r.frs r.t0 r.tr r.mg r.co)) fibers_ok)
+           then "diff e2e early-speculative-start " ^ rec_summary r
+           else "diff e2e no-schedule-found " ^ rec_summary r)
 
 let e2e_line (judge : string -> string) (impl : string list) : string =
   match impl with
@@ -343,8 +343,9 @@ let verdict case impl =
     let o = (obs = "1") in
     if obs <> "0" && obs <> "1" then "error " ^ obs
     else if o = m then "ok"
-    else if o <> is_ignorable (Some r) then "viol spec=" ^ (if is_ignorable (Some r) then "1" else "0")
-    else "diff model=" ^ (if m then "1" else "0")
+    (* the property text does not fix which errors are ignorable; the model's table (and its positive
+       copy spec_transient) is the reading: a changed classification is a broken correspondence *)
+    else "diff model=" ^ (if m then "1" else "0") ^ " spec=" ^ (if is_ignorable (Some r) then "1" else "0")
   | ["X"; max; iv; fs], (_ :: _ as observed) ->
     let max = nat_of_int (int_of_n (n_of_hex max)) and iv = n_of_hex iv in
     let fs = fibers_of_string fs in
